@@ -79,14 +79,14 @@ def free_capacity(m, chip, used):
 
 
 @st.composite
-def nets_strategy(draw, names, max_nets=8, max_fan=6):
+def nets_strategy(draw, names, max_nets=8, max_fan=6, min_nets=0):
     if not names:
         return []
     nets = []
-    for _ in range(draw(st.integers(0, max_nets))):
+    for _ in range(draw(st.integers(min_nets, max_nets))):
         src = draw(st.sampled_from(names))
-        sinks = draw(st.lists(st.sampled_from(names), min_size=0,
-                              max_size=max_fan))
+        sinks = draw(st.lists(st.sampled_from(names),
+                              min_size=min(min_nets, 1), max_size=max_fan))
         w = draw(st.sampled_from([1, 1, 1.0, 0, 0.0, 2.5, 3, 0.25]))
         nets.append({"source": src, "sinks": sinks, "weight": w})
     return nets
